@@ -234,8 +234,12 @@ func c13SuiteMessage(tier string) []c13Input {
 		n := n
 		getters = append(getters, getter{fmt.Sprintf("GetBytes(%s)", intClass(n)), 0, func(m *message.Message) error { _, err := m.GetBytes(ctx, int(n)); return err }})
 	}
+	var only func(name string) bool // when set, restricts add() to some getters
 	add := func(class, desc string, payload []byte) {
 		for _, g := range getters {
+			if only != nil && !only(g.name) {
+				continue
+			}
 			for _, enc := range []bool{false, true} {
 				for _, how := range []string{"one", "bytewise", "no-eom", "4k"} {
 					if how == "bytewise" && (len(payload) > 64 && tier != "thorough") {
@@ -329,6 +333,34 @@ func c13SuiteMessage(tier string) []c13Input {
 			}
 		}
 	}
+	// (ii'') every length-prefixed string of <= 4 bytes over {Z K M NUL =} as the only
+	// expression of an ad (the in-band secret marker is "ZKM"; with and without its
+	// terminator, prefixes, and what follows it), through the string and ClassAd readers
+	only = func(n string) bool {
+		return strings.Contains(n, "ClassAd") || n == "GetString" || n == "SkipString" || strings.HasPrefix(n, "GetStringWithMaxSize")
+	}
+	{
+		alpha := []byte{'Z', 'K', 'M', 0, '='}
+		var rec func(p []byte)
+		rec = func(p []byte) {
+			pl := refcodec.EncInt(1)
+			pl = append(pl, refcodec.EncInt(int64(len(p)))...)
+			pl = append(pl, p...)
+			// a well-formed secret and the two type strings follow, all length-prefixed
+			pl = append(pl, refcodec.EncString("S = 1", true)...)
+			pl = append(pl, refcodec.EncString("", true)...)
+			pl = append(pl, refcodec.EncString("", true)...)
+			add(fmt.Sprintf("ad-lp-short-expr/len=%d", len(p)), fmt.Sprintf("ad whose only expression is the length-prefixed string %q", p), pl)
+			if len(p) == 4 {
+				return
+			}
+			for _, a := range alpha {
+				rec(append(append([]byte(nil), p...), a))
+			}
+		}
+		rec(nil)
+	}
+	only = nil
 	// (iii) many tiny expressions
 	{
 		pl := refcodec.EncInt(20000)
@@ -818,14 +850,19 @@ func c13RunChunk(suite, tier string, lo, hi int, entry string, inputs []c13Input
 				why = "spin"
 			case strings.Contains(se, "stack overflow") || strings.Contains(se, "stack exceeds"):
 				why = "stack-overflow"
-			case strings.Contains(se, "out of memory") || strings.Contains(se, "cannot allocate"):
-				why = "out-of-memory"
+			}
+			// "aborted" covers both the Go runtime giving up under the address-space limit and the
+			// kernel killing the worker; which of the two happens depends on the machine's load,
+			// so they share one key (the detail is in the message)
+			detail := ""
+			if strings.Contains(se, "out of memory") || strings.Contains(se, "cannot allocate") {
+				detail = " [out of memory]"
 			}
 			first := se
 			if i := strings.Index(se, "\n"); i > 0 {
 				first = se[:i]
 			}
-			res.Violate(fmt.Sprintf("C13/%s/%s/%s", why, in.entry, in.class), "input #%d of suite %s (%s): worker process %s (%v): %s", cur, suite, in.desc, why, err, first)
+			res.Violate(fmt.Sprintf("C13/%s/%s/%s", why, in.entry, in.class), "input #%d of suite %s (%s): worker process %s%s (%v): %s", cur, suite, in.desc, why, detail, err, first)
 			res.Evals++
 			res.Nontrivial++
 			lo = cur + 1
@@ -873,7 +910,7 @@ func tail(s string) string {
 func C13Plan() *vlib.Plan {
 	p := &vlib.Plan{
 		Property: "C13", Level: "exploration",
-		Rule:   "Bounded structure-aware exhaustion of every decoder entry point: (stream) 5 receive entry points x {plain, AES-GCM} x all 1-byte strings, all strings of 2-3 (thorough 4) bytes over a 16-value header alphabet, end flag x length boundary product x {no, partial, full body}, runs of 10 / 10^3 / 2*10^5 empty and 1-byte partial frames; (message) 11 typed/ClassAd readers + GetBytes(n) for 17 boundary n, x {one frame, 1-byte frames, missing end} x both modes x payloads = boundary integer (17 values from MinInt64 to MaxInt64) followed by 9 string shapes (empty, unterminated, marker, cap-1/cap/cap+1/10xcap, 100 KB), every truncation of a valid ad, count field over the catalogue, secret marker followed by 10 B..900 KB, ads of 2/5/50 attributes (plain or marker+secret, both string forms) each below the cap but summing above it, 20000 tiny expressions; (handshake) real ClientHandshake / ServerHandshake against scripted peers that put every catalogue integer into every length/count/status field they read (server ad, method reply, 5 exchangeKey fields, post-auth ad, SSL message length, FS result, 6 TOKEN step-2 fields; client ad, command, bitmask, CLAIMTOBE, 3 TOKEN step-1 fields, resumption request) and 4 KB..900 KB oversize ads; (text) all strings <= 5 (thorough 6) over 12-symbol alphabets through 8 parsers, crypto-state blob length fields. Oracle per input: no panic (recovered in the worker), no abort (out-of-memory under ulimit -v 6 GiB, stack overflow under a 16 MiB stack, attributed by the parent to the input in flight), no spin (15 s of CPU, or 5 min of wall-clock time, on one input), TotalAlloc <= 256 x (bytes served + cap) + 4 MiB, capped readers consume <= cap + one frame. Non-trivial = the decoder was invoked on the input (distinct inputs by construction).",
+		Rule:   "Bounded structure-aware exhaustion of every decoder entry point: (stream) 5 receive entry points x {plain, AES-GCM} x all 1-byte strings, all strings of 2-3 (thorough 4) bytes over a 16-value header alphabet, end flag x length boundary product x {no, partial, full body}, runs of 10 / 10^3 / 2*10^5 empty and 1-byte partial frames; (message) 11 typed/ClassAd readers + GetBytes(n) for 17 boundary n, x {one frame, 1-byte frames, missing end} x both modes x payloads = boundary integer (17 values from MinInt64 to MaxInt64) followed by 9 string shapes (empty, unterminated, marker, cap-1/cap/cap+1/10xcap, 100 KB), every truncation of a valid ad, count field over the catalogue, secret marker followed by 10 B..900 KB, ads of 2/5/50 attributes (plain or marker+secret, both string forms) each below the cap but summing above it, every length-prefixed string <= 4 bytes over {Z,K,M,NUL,=} as an ad's only expression (marker with / without its terminator), 20000 tiny expressions; (handshake) real ClientHandshake / ServerHandshake against scripted peers that put every catalogue integer into every length/count/status field they read (server ad, method reply, 5 exchangeKey fields, post-auth ad, SSL message length, FS result, 6 TOKEN step-2 fields; client ad, command, bitmask, CLAIMTOBE, 3 TOKEN step-1 fields, resumption request) and 4 KB..900 KB oversize ads; (text) all strings <= 5 (thorough 6) over 12-symbol alphabets through 8 parsers, crypto-state blob length fields. Oracle per input: no panic (recovered in the worker), no abort (out-of-memory under ulimit -v 6 GiB, stack overflow under a 16 MiB stack, attributed by the parent to the input in flight), no spin (15 s of CPU, or 5 min of wall-clock time, on one input), TotalAlloc <= 256 x (bytes served + cap) + 4 MiB, capped readers consume <= cap + one frame. Non-trivial = the decoder was invoked on the input (distinct inputs by construction).",
 		Assume: []string{"inputs outside the generated grammar are not covered (the property's fuzzing wording is claimed in this bounded form)", "memory judged by Go's TotalAlloc; SCITOKENS/KERBEROS readers not reached"},
 	}
 	p.Gen = func(tier string, yield func(vlib.Case)) {
